@@ -66,6 +66,10 @@ OP = st.one_of(
     st.tuples(st.just("update_map"), PAIRS),
     st.tuples(st.just("update_pairs"), PAIRS),
     st.tuples(st.just("ior_map"), PAIRS),
+    # mappings that are NOT dict instances (real collections.abc.Mapping implementations; a bare keys()/__getitem__ object
+    # is outside what TraitDict.update documents - "the new dict or an iterable of key-value pairs")
+    st.tuples(st.just("update_mapform"), PAIRS, st.sampled_from(["proxy", "userdict", "chain"])),
+    st.tuples(st.just("ior_mapform"), PAIRS, st.sampled_from(["proxy", "userdict", "chain"])),
     st.tuples(st.just("ior_pairs"), PAIRS),
     st.tuples(st.just("setdefault"), KEY, VAL),
     st.tuples(st.just("setdefault1"), KEY),
@@ -94,6 +98,26 @@ def as_map(pairs):
         return dict(pairs)
     except TypeError:
         raise Skip()
+
+
+class KeysObj:
+    """The minimal mapping protocol dict.update() accepts: keys() and __getitem__."""
+
+    def __init__(self, d):
+        self._d = d
+
+    def keys(self):
+        return self._d.keys()
+
+    def __getitem__(self, k):
+        return self._d[k]
+
+
+def map_form(d, form):
+    import collections
+    import types
+    return {"proxy": types.MappingProxyType, "userdict": collections.UserDict, "chain": collections.ChainMap,
+            "keysobj": KeysObj}[form](d)
 
 
 def run(case, ctx):
@@ -157,6 +181,12 @@ def run(case, ctx):
                 td.update(list(args[0]))
             elif k == "ior_map":
                 td.__ior__(as_map(args[0]))
+            elif k == "update_mapform":
+                td.update(map_form(as_map(args[0]), args[1]))
+            elif k == "ior_mapform":
+                r = td.__ior__(map_form(as_map(args[0]), args[1]))
+                if r is NotImplemented:
+                    raise TypeError("unsupported operand")
             elif k == "ior_pairs":
                 td.__ior__(list(args[0]))
             elif k == "setdefault":
@@ -180,7 +210,10 @@ def run(case, ctx):
                 m[kk] = vv
             elif k == "del":
                 del m[args[0]]
-            elif k in ("update_map", "ior_map"):
+            elif k in ("update_map", "ior_map", "update_mapform", "ior_mapform"):
+                if k == "ior_mapform":
+                    probe = {}
+                    probe |= map_form(as_map(args[0]), args[1])          # (the builtin decides whether |= takes this operand)
                 m.update(vpairs(as_map(args[0]).items()))
             elif k in ("update_pairs", "ior_pairs"):
                 m.update(vpairs(args[0]))
@@ -231,6 +264,9 @@ def run(case, ctx):
         if e2 is not None:
             interesting = True
             ctx.label("failing-op")
+        if k.endswith("mapform"):
+            interesting = True
+            ctx.label("non-dict-mapping:" + args[1])
         if k.startswith(("update", "ior")) and e2 is None and isinstance(args[0], list):
             try:
                 ks = [kval(a) for a, _ in args[0]]
